@@ -399,7 +399,8 @@ impl MessageType for ResponseHead {
         // Remove CL value if 0 now that all headers and HTTP/1.0 special cases are processed.
         // Protects against some request smuggling attacks.
         // See https://github.com/actix/actix-web/issues/2767.
-        if length.is_zero() {
+        let explicitly_empty = length.is_zero();
+        if explicitly_empty {
             length = PayloadLength::None;
         }
 
@@ -410,8 +411,8 @@ impl MessageType for ResponseHead {
             // switching protocol or connect
             PayloadType::Stream(PayloadDecoder::eof())
         } else {
-            // for HTTP/1.0 read to eof and close connection
-            if msg.version == Version::HTTP_10 {
+            // for HTTP/1.0 read to eof and close connection, unless the response says it is empty
+            if msg.version == Version::HTTP_10 && !explicitly_empty {
                 msg.set_connection_type(ConnectionType::Close);
                 PayloadType::Payload(PayloadDecoder::eof())
             } else {
